@@ -509,7 +509,7 @@ struct WkdRun {
 
     void op_verify(const Op& op) {
         if (sigs.empty()) return; SigM& sg = sigs[(size_t) op.arg(0) % sigs.size()]; if (!sg.expect_valid) return;
-        int mut = (int) op.arg(1) % 9; std::vector<MAttr> L = sg.list; Bn m = sg.msg; Buf sig = sg.sig; bool expect = true; std::string what;
+        int mut = (int) op.arg(1) % 10; std::vector<MAttr> L = sg.list; Bn m = sg.msg; Buf sig = sg.sig; bool expect = true; std::string what;
         size_t pick = (size_t) op.arg(2);
         switch (mut) {
         case 0: what = "unchanged"; break;
@@ -525,6 +525,14 @@ struct WkdRun {
             std::vector<uint8_t> b = wk_marshal(R, view, JV_OK_WK_SIG, sig, (pick & 1) != 0); Bytes hb(b.data(), b.size()); Buf s2(R.sz(JV_SZ_WK_SIG));
             env.lib_calls++; int ok = R.jv_wk_unmarshal(view, JV_OK_WK_SIG, s2, hb.p, (pick & 1) != 0, 1);
             env.check(ok == 1, "C15", "signature:unmarshal-own-bytes", "validating unmarshal rejected the library's own signature bytes"); sig = s2; what = "after a marshalling hop"; break; }
+        case 9: { // one coordinate field of the signature object perturbed (x, y or z of a0 or a1; for a1 one half of the quadratic-extension
+                  // coordinate), on the object as sign left it (random z) or on one that came through unmarshal (z exactly 1): the perturbed
+                  // triple represents another point (off the curve, in all but a negligible fraction of cases)
+            if (pick & 16) { std::vector<uint8_t> b = wk_marshal(R, view, JV_OK_WK_SIG, sig, (pick & 32) != 0); Bytes hb(b.data(), b.size()); Buf s2(R.sz(JV_SZ_WK_SIG)); env.lib_calls++; if (R.jv_wk_unmarshal(view, JV_OK_WK_SIG, s2, hb.p, (pick & 32) != 0, 1) != 1) return; sig = s2; }
+            int ek = 0; bool g2side = (pick & 1) != 0; size_t coord = (pick >> 1) % 3, half = g2side ? (pick >> 3) & 1 : 0;
+            uint8_t* f = (uint8_t*) R.jv_field(JV_OK_WK_SIG, sig, g2side ? JV_F_SIG_A1 : JV_F_SIG_A0, 0, &ek) + (g2side ? coord * 96 + half * 48 : coord * 48);
+            f[(op.arg(0) >> 6) % 47] ^= (uint8_t) (1u << (op.arg(0) & 7));   // (byte 47 is left alone: the stored value stays below q)
+            expect = false; what = strf("%s.%c%s of the %s signature object perturbed", g2side ? "a1" : "a0", "xyz"[coord], g2side ? (half ? ".c1" : ".c0") : "", (pick & 16) ? "unmarshalled" : "fresh"); env.count("fault:signature_coordinate_field_perturbed"); break; }
         }
         if (what.empty()) return;
         bool ok = verify_both(L, sig, m, what);
@@ -684,7 +692,7 @@ struct WkdScenario : Scenario {
             else if (kind == "DEC") p.ops.push_back({kind, {(int64_t) r.below(64), (int64_t) r.below(64)}, {}});
             else if (kind == "DECM") p.ops.push_back({kind, {(int64_t) r.below(64)}, {}});
             else if (kind == "SIGN") { Op o{kind, {ss, (int64_t) r.below(64), r.chance(1, 4) ? (int64_t) (100 + r.below(1000)) : (int64_t) r.below(value_codes().size()), r.chance(1, 2), r.chance(1, 5) ? r.range(1, 2) : 0}, directives(r, l)}; maybe_fault(o); p.ops.push_back(o); }
-            else if (kind == "VERIFY") p.ops.push_back({kind, {(int64_t) r.below(64), (int64_t) r.below(9), (int64_t) r.below(64)}, {}});
+            else if (kind == "VERIFY") p.ops.push_back({kind, {(int64_t) r.below(64), (int64_t) r.below(10), (int64_t) r.below(64)}, {}});
             else if (kind == "ATTACK") p.ops.push_back({kind, {ss, (int64_t) r.below(64), (int64_t) r.below(4), (int64_t) r.below(value_codes().size()), (int64_t) r.below(8)}, {}});
             else if (kind == "TAMPERCT") p.ops.push_back({kind, {(int64_t) r.below(64), (int64_t) r.below(3)}, {}});
             else if (kind == "HOP") p.ops.push_back(WkdRun::gen_hop(r));
